@@ -128,8 +128,8 @@ pub fn generate(tier: &str, rng: &mut Rng) -> (Vec<String>, bool) {
                         let t = if f.nullable && k % 2 == 0 { "of64" } else { "f64" };
                         out.push(format!("{} w={} mp={} b={} t={} o=f64 xs={}{}", f.name, w, mp_tok(mp), b, t, join(&xs), tail));
                         // every output container x path
-                        let oc = ["vec", "deque", "nd"][k % 3];
-                        let p = ["ret", "out"][(k / 3) % 2];
+                        let oc = ["vec", "deque", "nd", "nds"][k % 4];
+                        let p = if oc == "nds" { "out" } else { ["ret", "out"][(k / 4) % 2] };
                         out.push(format!("{} w={} mp={} oc={} p={} t=f64 o=f64 xs={}{}", f.name, w, mp_tok(mp), oc, p, join(&xs), tail));
                     }
                 }
@@ -140,5 +140,5 @@ pub fn generate(tier: &str, rng: &mut Rng) -> (Vec<String>, bool) {
 }
 
 pub fn rule(tier: &str) -> String {
-    format!("(a) accessor table (len, checked get at 0..=len, iteration both directions, size hint, every sub-slice a<=b<=len, contiguous view when offered) of 15 input backends (Vec, slice, [T;N], Arc<Vec>, VecDeque head offsets 0/1/3, Arc<VecDeque>, Array1, ArrayViewMut1, ArrayView1 step 1,2,3,-1,-2) against the logical sequence, exhaustive over {{null,1,2}}^len, len <= {}; (b) every catalogued function ({}) on every sized backend (round-robin) and every output container x {{returned, caller buffer}}: full values against the single model result. Polars is not built in this harness (see DESIGN). non-trivial = len >= 2 with a non-null output.", if tier == "thorough" { 6 } else { 4 }, ROLL.len())
+    format!("(a) accessor table (len, checked get at 0..=len, iteration both directions, size hint, every sub-slice a<=b<=len, contiguous view when offered) of 15 input backends (Vec, slice, [T;N], Arc<Vec>, VecDeque head offsets 0/1/3, Arc<VecDeque>, Array1, ArrayViewMut1, ArrayView1 step 1,2,3,-1,-2) against the logical sequence, exhaustive over {{null,1,2}}^len, len <= {}; (b) every catalogued function ({}) on every sized backend (round-robin) and every output container x {{returned, caller buffer}} (incl. a strided ndarray view as caller buffer, checked for writes outside its slots): full values against the single model result. Polars is not built in this harness (see DESIGN). non-trivial = len >= 2 with a non-null output.", if tier == "thorough" { 6 } else { 4 }, ROLL.len())
 }
